@@ -880,6 +880,7 @@ func vObserve(s *store, evs []vGenEvent, times []int64, dids map[string]did.DID,
 		for v := 0; v <= len(mine)+1; v++ {
 			probe(fmt.Sprintf("hist%d:", v), obs.history(id, v))
 		}
+		probe("histneg:", obs.history(id, -1-len(mine)%3)) // Go's int version: negative = error before any read
 		_, isConf := conf[dk]
 		line = append(line, fmt.Sprintf("conflicted=%v", isConf))
 	}
@@ -979,6 +980,154 @@ func vRawDump(s *store) (res string) {
 	return fmt.Sprintf("raw latest=[%s] metas=[%s] evrefs=[%s] conf=[%s] cc=%s dc=%s tx=[%s] docs=[%s]",
 		strings.Join(latest, ","), strings.Join(metas, ","), strings.Join(evrefs, ","), strings.Join(conf, ","), cc, dc,
 		strings.Join(txs, ","), strings.Join(docs, ","))
+}
+
+// ---- read-transaction faults: the k-th shelf Get of a READ transaction fails with a storage error -----------------
+
+type vRFailDB struct {
+	stoabs.KVStore
+	ops, opAt int
+	fired     bool
+}
+type vRFailTx struct {
+	stoabs.ReadTx
+	f *vRFailDB
+}
+type vRFailR struct {
+	stoabs.Reader
+	f *vRFailDB
+}
+
+func (f *vRFailDB) Read(ctx context.Context, fn func(stoabs.ReadTx) error) error {
+	return f.KVStore.Read(ctx, func(tx stoabs.ReadTx) error { return fn(vRFailTx{ReadTx: tx, f: f}) })
+}
+func (f *vRFailDB) ReadShelf(ctx context.Context, shelf string, fn func(stoabs.Reader) error) error {
+	return f.KVStore.ReadShelf(ctx, shelf, func(r stoabs.Reader) error { return fn(vRFailR{Reader: r, f: f}) })
+}
+func (t vRFailTx) GetShelfReader(n string) stoabs.Reader {
+	return vRFailR{Reader: t.ReadTx.GetShelfReader(n), f: t.f}
+}
+func (r vRFailR) Get(k stoabs.Key) ([]byte, error) {
+	r.f.ops++
+	if r.f.ops == r.f.opAt {
+		r.f.fired = true
+		return nil, vErrInjected
+	}
+	return r.Reader.Get(k)
+}
+
+// vReadFault runs call once with the k-th Get of its read transaction(s) failing and once without a fault:
+// "db" = the failure fired and came back as an error wrapping the injected one; "swallowed" = it fired and the call did
+// not report it; "same" = it never fired and the call answered what it answers without a fault; "DIFF" = it never fired
+// and the answer differs all the same.
+func vReadFault(db stoabs.KVStore, k int, call func(db stoabs.KVStore) (string, error)) (res string) {
+	defer func() {
+		if r := recover(); r != nil {
+			res = "panic"
+		}
+	}()
+	f := &vRFailDB{KVStore: db, opAt: k}
+	got, err := call(f)
+	base, berr := call(db)
+	switch {
+	case f.fired && err != nil && errors.Is(err, vErrInjected):
+		return "db"
+	case f.fired:
+		return "swallowed"
+	case got == base && (err == nil) == (berr == nil):
+		return "same"
+	}
+	return "DIFF"
+}
+
+// vReadFaults: every read entry point of the store under a failing k-th Get (see vReadFault), for the k around the number
+// of Gets the call performs
+func vReadFaults(s *store, evs []vGenEvent, times []int64, dids map[string]did.DID) (res string) {
+	defer func() {
+		if r := recover(); r != nil {
+			res = "rfault panic"
+		}
+	}()
+	real := s.db
+	defer func() { s.db = real }()
+	on := func(call func() (string, error)) func(db stoabs.KVStore) (string, error) {
+		return func(db stoabs.KVStore) (string, error) {
+			s.db = db
+			defer func() { s.db = real }()
+			return call()
+		}
+	}
+	var didKeys []string
+	for k := range dids {
+		didKeys = append(didKeys, k)
+	}
+	sort.Strings(didKeys)
+	var parts []string
+	var g []string
+	for k := 1; k <= 2; k++ {
+		g = append(g, fmt.Sprintf("cc%d=%s", k, vReadFault(real, k, on(func() (string, error) { c, err := s.ConflictedCount(); return fmt.Sprint(c), err }))))
+		g = append(g, fmt.Sprintf("dc%d=%s", k, vReadFault(real, k, on(func() (string, error) { c, err := s.DocumentCount(); return fmt.Sprint(c), err }))))
+	}
+	var cfg []string
+	for k := 1; k <= 4; k++ {
+		cfg = append(cfg, vReadFault(real, k, func(db stoabs.KVStore) (string, error) {
+			ns := New(&storage.StaticKVStoreProvider{Store: db}).(*store)
+			err := ns.Configure(core.ServerConfig{})
+			return fmt.Sprint(len(ns.conflictedDocuments)), err
+		}))
+	}
+	g = append(g, "cfg=["+strings.Join(cfg, ",")+"]")
+	var it []string
+	for _, k := range []int{1, 2, 3, 2 * len(didKeys), 2*len(didKeys) + 1} {
+		it = append(it, vReadFault(real, k, on(func() (string, error) {
+			var ids []string
+			err := s.Iterate(func(doc did.Document, md resolver.DocumentMetadata) error {
+				ids = append(ids, doc.ID.String())
+				return nil
+			})
+			sort.Strings(ids)
+			return strings.Join(ids, ","), err
+		})))
+	}
+	g = append(g, "iter=["+strings.Join(it, ",")+"]")
+	parts = append(parts, "rfault "+strings.Join(g, " "))
+	for _, dk := range didKeys {
+		id := dids[dk]
+		n := 0
+		for _, e := range evs {
+			if e.doc.ID.String() == dk {
+				n++
+			}
+		}
+		var mds []*resolver.ResolveMetadata
+		mds = append(mds, nil, &resolver.ResolveMetadata{AllowDeactivated: true})
+		if len(times) > 0 {
+			t0 := vBase.Add(time.Duration(times[0]))
+			t1 := vBase.Add(time.Duration(times[len(times)/2]))
+			mds = append(mds, &resolver.ResolveMetadata{ResolveTime: &t0}, &resolver.ResolveMetadata{ResolveTime: &t1, AllowDeactivated: true})
+		}
+		var rs []string
+		for vi, md := range mds {
+			for _, k := range []int{1, 2, 3, 4, 5, n + 2} {
+				rs = append(rs, fmt.Sprintf("%d.%d:%s", vi, k, vReadFault(real, k, on(func() (string, error) {
+					doc, meta, err := s.Resolve(id, md)
+					if err != nil {
+						return vErrName(err), err
+					}
+					return vDocStr(*doc) + fmt.Sprint(meta.Hash, meta.SourceTransactions, meta.Deactivated), nil
+				}))))
+			}
+		}
+		var hs []string
+		for _, vk := range [][2]int{{0, 1}, {0, 2}, {0, n + 1}, {0, n + 2}, {n - 1, 1}, {n - 1, 2}, {n - 1, 3}, {n, 1}, {n, 2}} {
+			hs = append(hs, fmt.Sprintf("%d.%d:%s", vk[0], vk[1], vReadFault(real, vk[1], on(func() (string, error) {
+				h, err := s.HistorySinceVersion(id, vk[0])
+				return fmt.Sprint(len(h)), err
+			}))))
+		}
+		parts = append(parts, "DID "+dk+" res=["+strings.Join(rs, ",")+"] hist=["+strings.Join(hs, ",")+"]")
+	}
+	return strings.Join(parts, " | ")
 }
 
 func TestVerifC10(t *testing.T) {
@@ -1125,6 +1274,10 @@ func TestVerifC10(t *testing.T) {
 		// the literal shelves (order-DEPENDENT for documentsV2: intermediate merged documents stay behind)
 		opsW.WriteString(`{"op":"raw"}` + "\n")
 		implW.WriteString(vRawDump(s))
+		implW.WriteByte('\n')
+		// every read entry point with a failing k-th Get of its read transaction
+		opsW.WriteString(`{"op":"rfault"}` + "\n")
+		implW.WriteString(vReadFaults(s, evs, times, dids))
 		implW.WriteByte('\n')
 		// restart: a fresh store object on the same database must give the same answers (conflicted cache reload)
 		s2 := New(&storage.StaticKVStoreProvider{Store: db}).(*store)
